@@ -45,7 +45,7 @@ ALPHA_S = "ab./+"
 def plan(tier, seed):
     specs = []
     for _ in range(8 if tier == "quick" else 14):
-        specs.append({"kind": "scans", "n": 12 if tier == "quick" else 320})
+        specs.append({"kind": "scans", "n": 30 if tier == "quick" else 320})
     plen, slen = (4, 4) if tier == "quick" else (6, 5)
     parts = 4 if tier == "quick" else 16
     for i in range(parts):
